@@ -119,11 +119,46 @@ pub fn respell(a: &[u8], win: bool, rng: &mut Rng) -> Vec<Vec<u8>> {
     v
 }
 
+/// for a long path: one equal re-spelling per separator position (a doubled separator, and a `.`
+/// segment after it), so that a redundant segment is tried at EVERY offset and alignment
+pub fn respell_every_position(a: &[u8], win: bool) -> Vec<Vec<u8>> {
+    let sep = if win { b'\\' } else { b'/' };
+    let mut v = Vec::new();
+    // under an exact `\\?\` prefix neither re-spelling is equal: leave those alone
+    if win && a.starts_with(br"\\?\") {
+        return v;
+    }
+    for (i, b) in a.iter().enumerate() {
+        if !enc_sep(win).contains(b) || i + 1 >= a.len() {
+            continue;
+        }
+        // not inside the first four bytes (a prefix may live there)
+        if win && i < 4 {
+            continue;
+        }
+        let mut x = a[..=i].to_vec();
+        x.push(sep);
+        x.extend_from_slice(&a[i + 1..]);
+        v.push(x);
+        let mut y = a[..=i].to_vec();
+        y.push(b'.');
+        y.push(sep);
+        y.extend_from_slice(&a[i + 1..]);
+        v.push(y);
+    }
+    v
+}
+
 pub fn pairs_related(dom: &[Vec<u8>], win: bool, nrand: usize, seed: u64) -> Vec<(Vec<u8>, Vec<u8>)> {
     let mut rng = Rng::new(seed ^ 0x51);
     let mut out = Vec::new();
     for a in dom {
         out.push((a.clone(), a.clone()));
+        if a.len() >= 24 {
+            for b in respell_every_position(a, win) {
+                out.push((a.clone(), b));
+            }
+        }
         for b in respell(a, win, &mut rng) {
             out.push((a.clone(), b.clone()));
             out.push((b, a.clone()));
@@ -204,6 +239,14 @@ pub fn bases(win: bool, tier: &str, seed: u64) -> Vec<Vec<u8>> {
     }
     for _ in 0..(if t { 60 } else { 12 }) {
         v.push(long_random_path(&mut rng, win));
+    }
+    // every byte value in the LAST position of a base (tests of "ends in a separator" must not be
+    // fooled by a byte that only resembles one), after a name and directly after a separator
+    for b in 0..=255u8 {
+        v.push(vec![b'd', b'/', b'a', b]);
+        if t || b >= 0x80 {
+            v.push(if win { vec![b'C', b':', b'\\', b] } else { vec![b'/', b] });
+        }
     }
     v.extend(extras());
     dedup_keep_order(v)
